@@ -134,6 +134,22 @@ def cases(tier, rng):
                     foreign = 0x4100
                 rows[i] = rows[i][:j] + [foreign] + rows[i][j + 1:]
             yield {"op": "enc_np", "enc": n, "rows": rows, "kind": kind, "foreign": foreign}
+    # rectangular blocks of text handed over as 2-D arrays in every memory layout (C, Fortran, transposed view, strided, negative strides)
+    for n in ENC_NAMES:
+        A = _static_alphabet(n)
+        for _ in range(30 if tier != "quick" else 6):
+            h, w = rng.choice([1, 2, 3, 5]), rng.choice([1, 2, 3, 4, 7])
+            rows = [[rng.choice(A) for _ in range(w)] for _ in range(h)]
+            foreign = None
+            if rng.random() < 0.3:
+                i, j = rng.randrange(h), rng.randrange(w)
+                cand = [b for b in range(33, 127) if not _accepts(A, b)]
+                if cand:
+                    foreign = rng.choice(cand)
+                    rows[i][j] = foreign
+            for layout in ("C", "F", "T", "strided", "neg"):
+                for entry in ("as_encoded_array", "encode"):
+                    yield {"op": "enc_2d", "enc": n, "rows": rows, "layout": layout, "entry": entry, "foreign": foreign}
     for n in OFFSET_NAMES:
         for b in range(256):
             yield {"op": "offset_byte", "enc": n, "b": b}
@@ -231,6 +247,8 @@ def nontrivial(c):
         return c["src"] != c["tgt"]
     if c["op"] == "enc_np":
         return True
+    if c["op"] == "enc_2d":
+        return c["layout"] != "C" and len(c["rows"]) > 1 and len(c["rows"][0]) > 1
     flat = c["s"] if "s" in c else [x for r in c["rows"] for x in r]
     return any(97 <= b <= 122 for b in flat) or len(flat) >= 2
 
@@ -278,6 +296,29 @@ def impl(c):
                 r = as_encoded_array(EncodedArray(np.array(s, dtype=np.uint8), BaseEncoding), E)
             return {"codes": [int(x) for x in np.asarray(r.raw()).ravel()], "dec": [int(x) for x in E.decode(r).raw().ravel()],
                     "enc_same": r.encoding == E}
+        if op == "enc_2d":
+            E = _encs()[c["enc"]]
+            block = np.array(c["rows"], dtype=np.uint8)
+            lay = c["layout"]
+            if lay == "C":
+                v = block
+            elif lay == "F":
+                v = np.asfortranarray(block)
+            elif lay == "T":
+                v = np.ascontiguousarray(block.T).T
+            elif lay == "strided":
+                big = np.zeros((2 * block.shape[0], 3 * block.shape[1]), dtype=np.uint8)
+                big[::2, ::3] = block
+                v = big[::2, ::3]
+            else:
+                v = np.ascontiguousarray(block[::-1, ::-1])[::-1, ::-1]
+            x = EncodedArray(v, BaseEncoding)
+            r = as_encoded_array(x, E) if c["entry"] == "as_encoded_array" else E.encode(x)
+            if not isinstance(r, EncodedArray):
+                r = EncodedArray(np.asarray(r), E)
+            d = E.decode(r)
+            return {"rows": [[int(b) for b in row] for row in np.asarray(d.raw()).reshape(block.shape)], "enc_same": r.encoding == E,
+                    "input_unchanged": np.asarray(v).tolist() == c["rows"]}
         if op == "enc_np":
             E = _encs()[c["enc"]]
             texts = ["".join(chr(b) for b in r) for r in c["rows"]]
@@ -398,6 +439,10 @@ def oracle(c):
     if op in ("retarget", "change", "assign"):
         return {"text_or_error": [_up(b) for b in c["s"]]}
     A = _static_alphabet(c["enc"])
+    if op == "enc_2d":
+        if c["foreign"] is not None:
+            return {"err": "encoding", "offset": None}
+        return {"rows": [[_up(b) for b in r] for r in c["rows"]], "enc_same": True, "input_unchanged": True}
     if op == "enc_np":
         if c["foreign"] is not None:
             return {"err": "encoding", "offset": None}
@@ -445,6 +490,8 @@ def agree(c, got, exp):
 def model_request(c):
     if c["op"] == "assign":
         return None        # decided against the oracle: same text or an error (the model's retarget rule is compared by the retarget op)
+    if c["op"] == "enc_2d":
+        return None        # memory layout has no counterpart in the model (a block IS its rows): decided against the oracle
     if c["op"] == "enc_np":
         return None        # entry-path dispatch: decided against the oracle (the byte-level model is the same as enc_ragged)
     if c["op"] in ("retarget_view", "change_view"):
@@ -457,7 +504,7 @@ def finding_key(c, got, exp):
     op = c["op"]
     if op in ("offset_byte", "offset_rows"):
         return "offset-encoding:" + c["enc"]
-    if op in ("enc_byte", "enc_str", "enc_ragged", "enc_np"):
+    if op in ("enc_byte", "enc_str", "enc_ragged", "enc_np", "enc_2d"):
         if isinstance(got, dict) and "err" not in got and "err" in exp:
             return "encode:accepts-foreign-byte"
         if isinstance(got, dict) and "err" in got and "err" not in exp:
@@ -543,6 +590,8 @@ def tags(c, got):
         t.append("enc:" + str(c["enc"]))
     if c["op"] in ("retarget", "change", "retarget_view", "change_view"):
         t.append("pair:" + ("predefined" if c.get("names") else "custom") + (":same" if c["src"] == c["tgt"] else ":different"))
+    if c["op"] == "enc_2d":
+        t += ["layout:" + c["layout"], "entry:" + c["entry"]]
     if c["op"] == "enc_np":
         t += ["array-kind:" + c["kind"], "foreign:" + ("none" if c["foreign"] is None else "NUL" if c["foreign"] == 0 else "ascii" if c["foreign"] < 128 else "non-latin")]
     if isinstance(got, dict):
